@@ -116,21 +116,24 @@ theorem C07_written_stream_checked (ms : List (WMsg × Nat)) (hg : ms.all (fun x
 /-- non-vacuity: a typical HAP response, an event, a body-less reply and a chunked reply satisfy `Good` -/
 def exResp : WMsg :=
   { version := str "HTTP/1.1", codeText := str "207", reason := str "Multi-Status",
-    headers := [(str "Content-Type", str "application/hap+json")], framing := .length (str "2"), body := str "{}" }
+    headers := [(str "content-type", str "  application/hap+json ")], framing := .length (str "2"), body := str "{}" }
 def exEvent : WMsg :=
   { version := str "EVENT/1.0", codeText := str "200", reason := str "OK",
-    headers := [(str "Content-Type", str "application/hap+json")], framing := .length (str "4"), body := str "null" }
+    headers := [(str "content-type", str "  application/hap+json ")], framing := .length (str "4"), body := str "null" }
 def exNoBody : WMsg :=
   { version := str "HTTP/1.1", codeText := str "204", reason := str "No Content", headers := [], framing := .none, body := [] }
 def exChunked : WMsg :=
   { version := str "HTTP/1.1", codeText := str "200", reason := str "OK",
-    headers := [(str "Content-Type", str "application/hap+json")],
+    headers := [(str "content-type", str "  application/hap+json ")],
     framing := .chunked [(str "a", str "{\"accessor"), (str "21", str "ies\":[{\"aid\":1,\"services\":[]}]}\r\n")],
     body := str "{\"accessories\":[{\"aid\":1,\"services\":[]}]}\r\n" }
 
-theorem goodHeader_ct : GoodHeader (str "Content-Type", str "application/hap+json") :=
-  ⟨by decide +kernel, by decide +kernel, by decide +kernel, by decide +kernel, by decide +kernel, by decide +kernel,
-   by decide +kernel⟩
+theorem goodHeader_ct : GoodHeader (str "content-type", str "  application/hap+json ") :=
+  ⟨by decide +kernel, by decide +kernel, by decide +kernel, by decide +kernel, by decide +kernel⟩
+
+/-- ... and it reaches the application as `Content-Type` / `application/hap+json` -/
+example : normHeader (str "content-type", str "  application/hap+json ") = (str "Content-Type", str "application/hap+json") := by
+  decide +kernel
 
 example : Good exResp 207 :=
   ⟨by decide +kernel, by decide +kernel, by decide +kernel, by decide +kernel, by decide +kernel,
